@@ -16,7 +16,8 @@ RULE = ('~50 independent text templates (ISO-like with T/space, compact 8/12/14-
         'parser.parse proves the call reached the real method.  Expected value = the datetime truncated to the rendered '
         'precision, aware with exactly the rendered offset iff one was rendered.  Non-trivial = has a time of day, an '
         'offset, a two-digit year or a boundary year; distinct = (template, fraction digits, offset form, sign class, '
-        'boundary-class vector of the datetime, input type).')
+        'boundary-class vector of the datetime, input type).'
+        ' Also: yy-Mon-d, Mon-d-yy and year-day-month forms; the two-digit-year window is swept for all 100 values under 13 simulated clock years (the process clock is replaced while a parserinfo is built).')
 ASSUMPTIONS = ['vf/render_gen.py renders the documented forms; a template\'s domain excludes datetimes for which the '
                'documented rules make the text ambiguous (two-digit years outside the pivot window)',
                'missing time fields come from the default (midnight)']
